@@ -25,7 +25,7 @@ ASSUMPTIONS = [
     'the value order (ties depend on storage order)',
 ]
 ANCHORS = ['Table.transform', 'Table.norm', 'Table.pa', 'Table.rankdata', '_normalize_table']
-REQUIRED = ['function_reads_the_table', 'second_transform_on_result', 'norm_with_repeated_ids', 'norm_signed_positive_total_vectors', 'tap_calls_checked', 'op_transform', 'op_norm', 'op_pa',
+REQUIRED = ['pa_tables_with_non_finite_cell', 'function_reads_the_table', 'second_transform_on_result', 'norm_with_repeated_ids', 'norm_signed_positive_total_vectors', 'tap_calls_checked', 'op_transform', 'op_norm', 'op_pa',
             'op_rankdata', 'cli_runs', 'axis_agreement_checked',
             'layout_csc_seen', 'layout_unsorted_seen', 'zero_cells_checked']
 
@@ -178,6 +178,13 @@ def run_case(ctx, index):
         spec.D = np.where(tot > 0, spec.D / np.where(tot > 0, tot, 1), 0.) \
             * r.choice([1 - 3e-6, 1 + 2e-6, 1 - 4e-7, 0.999999])
         ctx.count('near_normalised_tables')
+    if op == 'pa' and spec.D.any() and r.random() < .2:
+        # a cell that holds no finite number is not a zero cell
+        nzr, nzc = np.nonzero(spec.D)
+        q = r.randrange(len(nzr))
+        spec.D[nzr[q], nzc[q]] = r.choice([float('nan'), float('inf'),
+                                           float('-inf')])
+        ctx.count('pa_tables_with_non_finite_cell')
     recipe = r.choice(gen.LAYOUTS)
     axis = r.choice(['sample', 'observation'])
     inplace = r.random() < .5
